@@ -28,10 +28,13 @@ def build(sdir):
     with open(os.path.join(w, "ald_probe.c"), "w") as f:
         f.write("_Atomic long double x; long double f(long double v) { x += v; ++x; return x; }\n")
     ald = sh([cc, "-S", "-I" + os.path.join(src, "include"), os.path.join(w, "ald_probe.c"), "-o", os.path.join(w, "ald_probe.s")]).returncode == 0
-    r = sh([sys.executable, os.path.join(HERE, "genops.py"), w] + (["--ald"] if ald else []))
+    with open(os.path.join(w, "pq_probe.c"), "w") as f:
+        f.write("long * _Atomic p; long *f(void) { p++; p += 2; return p; }\n")
+    pq = sh([cc, "-S", "-I" + os.path.join(src, "include"), os.path.join(w, "pq_probe.c"), "-o", os.path.join(w, "pq_probe.s")]).returncode == 0
+    r = sh([sys.executable, os.path.join(HERE, "genops.py"), w] + (["--ald"] if ald else []) + (["--ptrqual"] if pq else []))
     if r.returncode:
         raise BuildError("genops failed: " + r.stdout.decode())
-    stats = {"atomic_long_double_accepted_by_the_compiler": int(ald)}
+    stats = {"atomic_long_double_accepted_by_the_compiler": int(ald), "atomic_after_star_spelling_accepted_by_the_compiler": int(pq)}
     for tag, flags, base in (("cc", [], 0), ("pic", ["-fPIC"], 1000000)):
         r = sh([cc, "-S", "-I" + os.path.join(src, "include"), "-DPFX=%s_" % tag] + flags + [os.path.join(w, "ops.c"), "-o", os.path.join(w, "ops_%s.s" % tag)])
         if r.returncode:
